@@ -15,10 +15,14 @@ RULE = ("lengths 0-6 x {list, tuple, iter(list), generator, unsized iterable, as
         "query scripts: every ordered sequence of <=3 queries over {index,index0,revindex,revindex0,"
         "first,last,length,previtem,nextitem} (+ cycle/changed/depth probes), the script optionally "
         "differing between first / middle / last iterations, with and without loop filters and else; "
+        "loop.cycle argument patterns: every call shape {literal args, one context variable per arg, "
+        "*args from a context list} x arity 1 (every value kind: str, int, none, bool, non-empty/one-element/"
+        "empty list, tuple, empty tuple, dict, nested list) and arity 2 (all ordered pairs of six kinds), "
+        "arity 3-4 sampled, oracle args[index0 % len(args)]; "
         "recursive loops over random trees; rendered text compared with vt.model.interp.MLoop computed "
         "from the materialised list. distinct = (form, length, script, filter) tuples whose script "
         "queries a look-ahead attribute (revindex*, last, length, nextitem) on a non-sized form, or any "
-        "tuple with a filter / recursion")
+        "tuple with a filter / recursion, or a cycle argument pattern on a non-empty iterable")
 LEVEL_TEXT = "exhaustive for the uniform scripts; sampled for per-iteration-varying scripts and recursive trees"
 ASSUMPTIONS = ["items are small ints; the loop body never mutates the iterable"]
 NSHARDS = {"quick": 16, "thorough": 16}
@@ -27,11 +31,13 @@ FLOORS = {
     "quick": {"evaluations": 30000, "distinct": 8000,
               "counters": {"lookahead_on_iterator": 5000, "else_taken": 1000, "filtered": 2000,
                            "recursive": 100, "recursive_in_recursive": 15, "async_iterable": 1000, "wrapped_queries": 300,
-                           "iterables_with_undefined_elements": 30}},
+                           "iterables_with_undefined_elements": 30,
+                           "cycle_arg_patterns": 1500, "cycle_container_args": 1100, "cycle_single_arg": 450}},
     "thorough": {"evaluations": 300000, "distinct": 60000,
                  "counters": {"lookahead_on_iterator": 50000, "else_taken": 10000, "filtered": 20000,
                               "recursive": 2000, "recursive_in_recursive": 300, "async_iterable": 10000, "wrapped_queries": 3000,
-                              "iterables_with_undefined_elements": 1000}},
+                              "iterables_with_undefined_elements": 1000,
+                              "cycle_arg_patterns": 3000, "cycle_container_args": 2000, "cycle_single_arg": 700}},
 }
 
 ATTRS = ["index", "index0", "revindex", "revindex0", "first", "last", "length", "previtem", "nextitem"]
@@ -74,7 +80,88 @@ def make_iterable(form, xs):
     raise ValueError(form)
 
 
+# ---- loop.cycle argument patterns -------------------------------------------------------------
+# A query token "cycle~<shape>~<kind>,<kind>,..." calls loop.cycle with one argument per kind.
+# shape: lit = arguments written as literals in the template, var = one context variable per
+# argument, star = loop.cycle(*cargs) with cargs a context list holding the arguments.
+# The oracle is the documented formula args[index0 % len(args)] (vt.model.interp.MLoop.cycle),
+# whatever the type of the individual arguments.
+CYCLE_VALUES = {
+    "str": "a", "str2": "xy", "int": 4, "none": None, "bool": True,
+    "list": ["r", "g", "b"], "list1": ["q"], "elist": [],
+    "tuple": ("odd", "even"), "etuple": (), "dict": {"k": 1}, "nested": [["n", "m"], "o"],
+}
+CYCLE_KINDS = list(CYCLE_VALUES)
+CYCLE_KINDS_PAIR = ["str", "int", "none", "list", "tuple", "elist"]
+CYCLE_SHAPES = ["lit", "var", "star"]
+_COARSE = {"list": "seq", "list1": "seq", "tuple": "seq", "nested": "seq", "elist": "emptyseq",
+           "etuple": "emptyseq", "dict": "mapping"}
+
+
+def cycle_token(shape, kinds):
+    return "cycle~" + shape + "~" + ",".join(kinds)
+
+
+def cycle_parts(a):
+    _, shape, kinds = a.split("~")
+    return shape, kinds.split(",")
+
+
+def is_cycle_token(a):
+    return a.startswith("cycle~")
+
+
+def value_expr(v):
+    if isinstance(v, list):
+        return ["list", [value_expr(x) for x in v]]
+    if isinstance(v, tuple):
+        return ["tuple", [value_expr(x) for x in v]]
+    if isinstance(v, dict):
+        return ["dict", [[value_expr(k), value_expr(x)] for k, x in v.items()]]
+    return C(v)
+
+
+def cycle_context(scripts):
+    """Context variables needed by the cycle tokens of the scripts (fresh objects every call)."""
+    import copy
+
+    out = {}
+    for s in scripts:
+        for a in s:
+            if not is_cycle_token(a):
+                continue
+            shape, kinds = cycle_parts(a)
+            if shape == "var":
+                for kd in kinds:
+                    out["cv_" + kd] = copy.deepcopy(CYCLE_VALUES[kd])
+            elif shape == "star":
+                out["ca_" + "_".join(kinds)] = [copy.deepcopy(CYCLE_VALUES[kd]) for kd in kinds]
+    return out
+
+
+def cycle_class(scripts):
+    """Coarse mechanism class of the cycle argument patterns in the scripts, for violation keys."""
+    cls = []
+    for s in scripts:
+        for a in s:
+            if is_cycle_token(a):
+                shape, kinds = cycle_parts(a)
+                c = f"{len(kinds)}," + "+".join(sorted({_COARSE.get(kd, "scalar") for kd in kinds}))
+                if c not in cls:
+                    cls.append(c)
+    return sorted(cls)
+
+
 def q_expr(a):
+    if is_cycle_token(a):
+        shape, kinds = cycle_parts(a)
+        if shape == "lit":
+            args = [value_expr(CYCLE_VALUES[kd]) for kd in kinds]
+        elif shape == "var":
+            args = [N("cv_" + kd) for kd in kinds]
+        else:
+            args = [["star", N("ca_" + "_".join(kinds))]]
+        return ["call", ["attr", N("loop"), "cycle"], args, []]
     if a in ("previtem", "nextitem"):
         return F(["attr", N("loop"), a], "default", C("U"))
     if a == "cycle":
@@ -172,13 +259,13 @@ def check(ctx, envs, scripts, filt, with_else, form, xs, k=2, wrap=None):
         ctx.count("wrapped_queries")
     tm = get_templates(envs, key, body)
     it = M.Interp({"t": body})
-    mo = util.capture(lambda: it.render("t", {"seq": with_undefined(list(xs)), "k": k}))
+    mo = util.capture(lambda: it.render("t", dict(cycle_context(scripts), seq=with_undefined(list(xs)), k=k)))
     case = {"scripts": [list(s) for s in scripts], "filt": filt, "else": with_else, "form": form,
             "xs": list(xs), "k": k, "wrap": wrap}
     for en, t in tm.items():
         if form == "agen" and en != "async":
             continue
-        eo = util.capture(lambda: t.render(seq=make_iterable(form, xs), k=k))
+        eo = util.capture(lambda: t.render(dict(cycle_context(scripts), seq=make_iterable(form, xs), k=k)))
         ctx.ev()
         bad = None
         if mo.ok and eo.ok:
@@ -189,14 +276,28 @@ def check(ctx, envs, scripts, filt, with_else, form, xs, k=2, wrap=None):
         if bad:
             la = sorted({a for s in scripts for a in s} & LOOKAHEAD)
             key2 = "loop:" + form + ":" + ("+".join(la) or "nolookahead") + (":filter" if filt else "") + \
-                (":varying" if len(scripts) > 1 else "") + (":in-" + wrap if wrap else "")
+                (":varying" if len(scripts) > 1 else "") + (":in-" + wrap if wrap else "") + \
+                "".join(":cycle(" + c + ")" for c in cycle_class(scripts))
             ctx.violation(key2, f"{bad} | {jast.ps(body)!r} seq={list(xs)} form={form} env={en}", case)
     allq = {a for s in scripts for a in s}
+    disted = False
     if form in ("iter", "gen", "unsized", "agen") and allq & LOOKAHEAD:
         ctx.count("lookahead_on_iterator")
         ctx.dist([form, len(xs), key[0], filt])
+        disted = True
     elif filt:
         ctx.dist([form, len(xs), key[0], filt])
+        disted = True
+    cyc = [cycle_parts(a) for a in sorted(allq) if is_cycle_token(a)]
+    if cyc and len(xs) > 0:
+        # non-trivial only when the body runs at least once
+        ctx.count("cycle_arg_patterns")
+        if any(_COARSE.get(kd) for _, kinds in cyc for kd in kinds):
+            ctx.count("cycle_container_args")
+        if any(len(kinds) == 1 for _, kinds in cyc):
+            ctx.count("cycle_single_arg")
+        if not disted:
+            ctx.dist([form, len(xs), key[0], filt])
     if form == "agen":
         ctx.count("async_iterable")
     if filt:
@@ -272,11 +373,16 @@ def run(ctx):
             for n in (0, 1, 3):
                 for form in ("list", "gen", "agen"):
                     check(ctx, envs, [(a,)], None, True, form, [(7 * i + 3) % 10 for i in range(n)], wrap=wrap)
+
+    def rand_cycle_token():
+        ar = rng.choice([1, 1, 2, 3, 4])
+        return cycle_token(rng.choice(CYCLE_SHAPES), [rng.choice(CYCLE_KINDS) for _ in range(ar)])
+
     # ---- probes with cycle/changed/depth, filters, varying scripts (sampled)
     extra = ATTRS + ["cycle", "changed", "changed0", "changed2", "changedstar", "depth", "depth0"]
     n_rand = 1500 if quick else 60000
     i = 0
-    while ctx.more(i, n_rand, floor=200):
+    while ctx.more(i, n_rand, floor=300):
         i += 1
         n = rng.randint(0, 6)
         xs = [rng.randint(0, 9) for _ in range(n)]
@@ -290,6 +396,10 @@ def run(ctx):
             ctx.count("iterables_with_undefined_elements")
         if rng.random() < 0.5:
             sc = [tuple(rng.choice(extra) for _ in range(rng.randint(0, 3)))]
+            if rng.random() < 0.3:
+                sc = [sc[0][:2] + (rand_cycle_token(),)]
+                if rng.random() < 0.5:
+                    sc = [sc[0][::-1]]
         else:
             sc = [tuple(rng.choice(ATTRS) for _ in range(rng.randint(0, 2))) for _ in range(3)]
             ctx.count("varying_scripts")
@@ -300,6 +410,25 @@ def run(ctx):
         check(ctx, envs, sc, filt, rng.random() < 0.6, form, xs, k=rng.randint(0, 9), wrap=wrap)
         if i % 10 == 0:
             recursive_case(ctx, envs, rng)
+    # ---- loop.cycle argument patterns: every shape x arity 1 (all kinds) and arity 2 (pairs).
+    # Enumerated completely (not time-boxed); placed after the sampled phase so that phase keeps its time.
+    ctoks = [cycle_token(sh, [kd]) for sh in CYCLE_SHAPES for kd in CYCLE_KINDS]
+    ctoks += [cycle_token(sh, [k1, k2]) for sh in CYCLE_SHAPES for k1 in CYCLE_KINDS_PAIR for k2 in CYCLE_KINDS_PAIR]
+    for tok in ctoks:
+        j += 1
+        if not ctx.mine(j):
+            continue
+        for n in ((0, 1, 2, 3, 6) if quick else range(0, maxlen + 1)):
+            xs = [(7 * i + 3) % 10 for i in range(n)]
+            for form in FORMS:
+                check(ctx, envs, [(tok,)], None, n % 2 == 0, form, xs)
+        # together with a look-ahead query before / after the call, and inside a wrapper
+        la = sorted(LOOKAHEAD)[j % len(LOOKAHEAD)]
+        for sc_ in ((la, tok), (tok, la)):
+            for form in ("gen", "agen", "list"):
+                check(ctx, envs, [sc_], None, True, form, [3, 0, 7])
+        check(ctx, envs, [(tok,)], None, True, ("list", "gen", "agen")[j % 3], [3, 0, 7, 4],
+              wrap=WRAPS[1 + j % (len(WRAPS) - 1)])
     if ctx.shard == 0:
         ctx.sample({"template": jast.ps(loop_ast([("nextitem", "length", "index")], "odd", True)),
                     "seq": [3, 0, 7], "form": "gen"})
